@@ -947,7 +947,9 @@ class ModelImpl(*_model_impl_base):
     def _check_sanity(self):
 
         for name, r in self.global_refs.items():
-            if name != "__builtins__":
+            if name != "__builtins__" and not isinstance(
+                    r.interface, Interface):
+                # References to modelx objects are not registered
                 assert id(r.interface) in self.refmgr._valid_to_refs
 
         self.refmgr._check_sanity()
